@@ -6,6 +6,11 @@ ROOT = os.path.dirname(os.path.dirname(os.path.abspath(__file__)))
 sys.path.insert(0, ROOT)
 
 CLAIMED = {
+ 'C01': dict(
+    text='Bounded symbolic verification of chi.LogLikelihood / LogPosterior over an uninterpreted mechanistic model: for every pair (triple) of per-output time multisets within the bound and all real observations and parameters z3 decides score = sum of documented densities at the matching (output, time), pointwise layout and sum, and evaluability.',
+    design='5 C01',
+    note='Trusted: z3, object-dtype NumPy, reference densities, mechanistic stub (uninterpreted Y keyed by output and time). ODE solver outside. Bounds: <=2 (3) outputs, <=2 (3) observations per output over 3 (4) distinct times.',
+    technique='symbolic execution of the real code on z3 reals with an uninterpreted solution functional + SMT validity queries over exhaustively enumerated time-grid order types'),
  'C04': dict(
     text='Bounded symbolic verification: the real error-model classes are executed on symbolic reals and z3 decides, for all real parameters/outputs/observations/sensitivities, that value, pointwise values and sensitivities equal the documented log-densities and their derivatives, that the density is the push-forward of N(0,1) through the documented generative map (normalisation), and that out-of-support inputs score -inf; for n_obs <= 3 (quick) / 5 (thorough) and sensitivity width <= 2 / 3.',
     design='5 C04',
